@@ -39,8 +39,25 @@ type sentRec struct {
 
 var regLabels = []string{"a", "b"}
 var reqLabels = []string{"a", "b", "x", "ab", "www"}
-var locPool = []string{"/", "/a", "/ab", "/a/b", "/a/", "/A", "/b", ""}
+var locPool = []string{"/", "/a", "/ab", "/a/b", "/a/", "/A", "/b", "", "/~", "/~!", "/~!frp", "/~a/", "/!", "/~!frp/"}
 var pathPool = []string{"/", "/a", "/ab", "/abc", "/a/b", "/a/b/c", "/a/", "/a/x", "/b", "/A", "/x", "/a?q=/ab", "/a/b?x=1", "/ab/"}
+
+// sniffPaths: prefixes, extensions and near-misses of the first-bytes signature of the control port's websocket
+// listener ("GET /~!frp"), which sits in front of the vhost HTTP listener when the ports are shared. The path
+// "/~!frp" itself (end of path or "?") is the websocket endpoint of frps and is never generated (avoidWS).
+var sniffPaths = []string{"/~", "/~!", "/~!f", "/~!fr", "/~!frpx", "/~!frp/x", "/~!frp/", "/~!frp!", "/~alice/", "/~bob/notes.txt", "/~~", "/~?x=1", "/~!?q=/~!frp",
+	"/!", "/!x", "/-/~alice", "/~a/b", "/~!FRP", "/~!frq", "/~!frp~"}
+
+var httpMethods = []string{"POST", "PUT", "DELETE", "HEAD", "OPTIONS", "PATCH", "TRACE"}
+
+// avoidWS keeps a request off frps' own websocket endpoint: exactly "/~!frp" followed by end of path or "?".
+func avoidWS(target string) string {
+	if cleanPath(kHTTP, target) == "/~!frp" {
+		return "/~!frp/" + target[len("/~!frp"):]
+	}
+	return target
+}
+
 var userPool = []string{"alice", "bob"}
 
 func mixCase(rng *rand.Rand, s string) string {
@@ -288,11 +305,19 @@ func (t *tcase) genRequestKind(kind string, aim *triple) request {
 			} else {
 				r.Target = pathPool[rng.Intn(len(pathPool))]
 			}
+			if rng.Intn(5) == 0 {
+				r.Target = sniffPaths[rng.Intn(len(sniffPaths))]
+			}
 			if r.Form == "absolute" && rng.Intn(6) == 0 {
 				r.Target = "" // "GET http://host HTTP/1.1": empty path
 			}
+			r.Target = avoidWS(r.Target)
+			if rng.Intn(10) < 4 {
+				r.Method = httpMethods[rng.Intn(len(httpMethods))]
+			}
 		}
 		r.Conn = rng.Intn(t.nKA)
+		r.Fresh = r.Form != "connect" && rng.Intn(10) < 4
 	}
 	if kind != kTLS {
 		switch x := rng.Intn(100); {
@@ -321,6 +346,12 @@ func (t *tcase) eval(r request, phase string) {
 	t.sent = append(t.sent, sentRec{R: r, A: a, Want: want})
 	c.Ev("request", "phase", phase, "req", r, "want", want, "got", a.String(), "tag", a.Tag, "reused", a.Reused)
 	run.Count("requests_"+r.Kind, 1)
+	if r.Kind == kHTTP && !a.Reused && a.Err == "" {
+		run.Count("http_first_requests_of_a_connection", 1)
+		if a.ControlPort {
+			run.Count("http_first_requests_on_shared_control_port_"+r.method(), 1)
+		}
+	}
 	if a.Reused {
 		run.Count("requests_on_reused_user_connection", 1)
 	}
@@ -360,10 +391,17 @@ func judge(c *h.Case, m *model, r request, a answer, want []string, phase string
 		run.Inconclusive("transport anomaly (" + r.Kind + ")")
 		run.Count("transport_anomalies", 1)
 		debugf("case %d anomaly: %+v: %s", c.Idx, r, a.Err)
+	case a.Foreign404 && want != nil && a.ControlPort:
+		c.Violation(claimedKey(a), "%s (method %s, first request of its connection: %v, that connection began with target %q) on the vhost port shared with the control port was answered %q by another listener of the port instead of being routed; route of %v matches; table %v", desc, r.method(), !a.Reused, a.FirstTarget, a.Body, want, tab)
+	case a.Foreign404 && want != nil:
+		c.Violation("matching-route-answered-by-foreign-not-found-"+r.Kind, "%s (method %s) was answered with a 404 that is not frps' not-found page (%q) although route of %v matches; table %v", desc, r.method(), a.Body, want, tab)
 	case a.Refused && want != nil:
 		c.Violation("matching-route-refused-"+r.Kind, "%s was refused (status %d) although route of %v matches; table %v", desc, a.Status, want, tab)
 	case a.Refused:
 		run.Count("refusals_correct", 1)
+		if a.Foreign404 {
+			run.Count("refusals_by_another_listener_of_the_port", 1)
+		}
 	case want == nil && !m.isLive(a.Ident):
 		c.Violation(r.Kind+"-request-reached-closed-proxy", "%s matches no route but was answered by %s, whose proxy has been closed (acknowledged); table %v", desc, a.Ident, tab)
 	case want == nil:
